@@ -47,6 +47,8 @@ pub struct Script {
     pub call_var: u64,
     /// Run the call script only during the first N calls of a thread (0 = always): lazy initialisation / warm-up.
     pub call_only_first: u64,
+    /// Allocate only from a thread's n-th call on (a cache that starts to fill late, amortised growth).
+    pub call_from: u64,
     /// Bit mask of thread indices (0 = caller, N = divan-N) whose calls run the script (0 = every thread).
     pub call_thread_mask: u64,
     /// Alternate, by call ordinal, between two orders of the same operations (both blocks live at once / one at a
@@ -96,6 +98,7 @@ impl Script {
             call_thr_scale: c.u64("cathr", 0) != 0,
             call_var: c.u64("cavar", 0),
             call_only_first: c.u64("caonly", 0),
+            call_from: c.u64("cafrom", 0),
             call_thread_mask: c.u64("camask", 0),
             call_peak_alt: c.u64("caalt", 0) != 0,
             call_free: c.u64("cafree", 1) != 0,
@@ -355,7 +358,7 @@ fn call_allocs(ord: u64) {
         }
         return;
     }
-    if s.call_ops.is_empty() || (s.call_only_first > 0 && ord >= s.call_only_first) {
+    if s.call_ops.is_empty() || (s.call_only_first > 0 && ord >= s.call_only_first) || ord < s.call_from {
         return;
     }
     if s.call_thread_mask != 0 && (s.call_thread_mask >> (evlog::kidx() as u64).min(63)) & 1 == 0 {
